@@ -464,4 +464,21 @@ bool float_domain_ok(const std::vector<K> &a) {
     }
 }
 
+/// n integer keys whose gaps change scale from key to key (gap = 1 + random below 2^e, e redrawn per key): hardly any run of
+/// keys is close to a line, so an index over them has a segment every few keys - the way to obtain a LARGE NUMBER OF
+/// SEGMENTS (hundreds of thousands: succinct directories beyond their small-size special cases) from a moderate n.
+template<class K>
+std::vector<K> gen_irregular_keys(Rng &r, size_t n) {
+    using D = UDom<K>;
+    int emax = 1;
+    while (emax < 22 && (uint64_t(1) << (emax + 1)) <= D::R / std::max<size_t>(n, 1)) ++emax; // mean gap < 2^emax / 2: fits the type
+    std::vector<K> out(n);
+    uint64_t cur = r.below(1000);
+    for (auto &x : out) {
+        x = D::to_key(std::min(cur, D::R));
+        cur = sat_add(cur, 1 + (r.next() & ((uint64_t(1) << r.below(uint64_t(emax) + 1)) - 1)), D::R);
+    }
+    return out;
+}
+
 } // namespace vf
